@@ -356,6 +356,9 @@ def build(modname):
                     emit('probe', tidx, snapshot())
                 if T.get('meddle'):
                     _meddle(T['meddle'])
+                if T.get('sleep'):
+                    import time
+                    time.sleep(T['sleep'])
                 _writes(T, 'body')
                 if T.get('nested_run'):
                     _nested_run()
